@@ -42,7 +42,7 @@ def checker(acc: Acc, cfg: Cfg, ex: Execution, payload: dict) -> None:
         return
     try:
         probs = structure_problems(
-            ex.spec, cfg.start(), dw.make_pack(cfg.pack), getattr(ex.searcher, "_verif_raw_rules", None)
+            ex.spec, cfg.start(), cfg.make_pack(), getattr(ex.searcher, "_verif_raw_rules", None)
         )
         # counting terminates without circular reliance
         ex.spec.get_terms(6)
@@ -84,6 +84,9 @@ def _worker(arg) -> Acc:
         acc.sample({"configuration": cfg.sid(), "outcomes": ce.outcomes, "distinct_specifications": len(ce.seen_specs)})
     env.clear_library_caches()
     dw._BF_CACHE.clear()
+    from mc import domain_g as dg
+
+    dg._TREES.clear()
     return acc
 
 
